@@ -347,3 +347,21 @@ REGISTRY["C19"] = {
         {"name": "TestC19Builder", "checks": {"quick": 250, "thorough": 20000}, "shards": {"quick": 12, "thorough": 16}},
     ],
 }
+
+REGISTRY["C18"] = {
+    "pkg": "props/c18",
+    "level": "exploration",
+    "level_text": ("rapid-drawn definitions with 1..3 executable processes (plain chains incl. start->end without any task, throwing processes, catching processes) "
+                   "and 0..2 waiting processes, linked by message flows (throw event -> message start event of a waiting process, throw event -> intermediate "
+                   "catch event of a running one); histories of task answers and waits (single, 2..4 concurrent, with expiring context, repeated after expiry, "
+                   "repeated after completion); perturbation at the StartAll/watcher window. A reference token game per started process instance (instantiated "
+                   "ones included) predicts the requests; after every action at quiescence: no waiter returned true while a started process holds tokens, live "
+                   "waiters never return false, once all are done every waiter has returned true, repeated/concurrent waits never crash the worker, exactly one "
+                   "CeaseProcessSetTrace, each throw instantiates its target process / wakes its target catch event exactly once."),
+    "level_note": EVENT_TRUST + " A throw event that fires at start-up is not aimed at a catch event of another process (whether that listener is armed yet is a start-up race the statement does not decide).",
+    "technique": "rapid stateful property test (answers + wait histories) with per-process reference models, stuck detection by goroutine snapshot, crash detection via journal",
+    "rule": ("Distinct = descriptor. Non-trivial = >=2 processes and (a process that finishes without any task, or a message flow, or >=2 waits)."),
+    "tests": [
+        {"name": "TestC18ProcessSet", "checks": {"quick": 120, "thorough": 4000}, "shards": {"quick": 16, "thorough": 16}, "gomaxprocs": [4, 2, 16, 1]},
+    ],
+}
